@@ -422,10 +422,17 @@ class Array(metaclass=MetaArray):
                     if hasattr(value, "shape") or hasattr(value, "_shape")
                     else _object_array(value, shape)
                 )
-                for idx in iter_index(shape, order):
-                    extra[idx] = cls._itemtype._inspect_args(items_of[idx])
-                    offsets[idx] = offset
-                    offset += _to_slot_size(extra[idx].size)
+                if isinstance(value, cls) and not cls._has_refs:
+                    # copied as it is: its items may have room to spare
+                    offsets[...] = value._offsets
+                    offset = value._size
+                else:
+                    for idx in iter_index(shape, order):
+                        extra[idx] = cls._itemtype._inspect_args(
+                            items_of[idx]
+                        )
+                        offsets[idx] = offset
+                        offset += _to_slot_size(extra[idx].size)
                 size = _to_slot_size(offset)
                 info.offsets = offsets
                 info.extra = extra
